@@ -341,6 +341,16 @@ func (o *authOracle) c19(e *Env, si *StepInfo) {
 				}
 				_, ok3 := prev.Model.Metas[f.DataId]
 				holds := ok && (sh.Status == ordertypes.ShardCompleted || sh.Status == ordertypes.ShardMigrating)
+				// ... for the named order: the order the shard currently serves, or a renewal queued on it
+				if holds && sh.OrderId != f.OrderId {
+					queued := false
+					for _, ri := range sh.RenewInfos {
+						if ri.OrderId == f.OrderId {
+							queued = true
+						}
+					}
+					holds = queued
+				}
 				if !ok || !ok2 || !ok3 || !listed || !holds || sh.Sp != f.Provider || ord.DataId != f.DataId || int64(sh.CreatedAt+sh.Duration) <= si.Height {
 					o.once(e, "C19", "C19.valid", lab, "fault-recorded-for-invalid-target", k, fmt.Sprintf("fault recorded against %s for order %d data %s shard %d: shard exists %v, order exists %v, model exists %v, order lists shard %v, provider holds it (stored) %v", fmtAddr(f.Provider), f.OrderId, f.DataId, f.ShardId, ok, ok2, ok3, listed, holds))
 				}
